@@ -111,25 +111,41 @@ SUITES.update({
                             "equal iff same canonical string; order laws incl. transitivity over all triples"),
 })
 
-# drivers: name -> dict(trace module, events per tier)
+# drivers (impl -> spec): name -> dict(trace module, calls per tier, extra args, processes)
+CORPUS = ["--corpus", "/repo/xtask/src/generate_tests/test-suite-data.json",
+          "--corpus", "/repo/xtask/src/generate_tests/phylum-test-suite-data.json"]
 DRIVERS = {
+    "garbage": dict(trace="Trace_Stateless", quick=1500, thorough=60000,
+                    describe="random separator-heavy strings (raw and escaped separators, invalid UTF-8 escapes, non-ASCII), parsed by String and Purl"),
+    "corpus": dict(trace="Trace_Stateless", quick=1200, thorough=40000, extra=CORPUS,
+                   describe="the 58 conformance strings + 7 seeds, mutated (delete/insert token, swap, escape toggle, case toggle, look-alike substitution, appended component)"),
+    "scalars": dict(trace="Trace_Stateless", quick=1500, thorough=1114112,
+                    describe="Unicode scalar values (boundaries + seeded sample; thorough: every scalar value) in a nuget name (escaped), a pypi name (raw) and a generic name"),
+    "builder-ops": dict(trace="Trace_Stateless", quick=2500, thorough=80000,
+                        describe="random builder call sequences with arbitrary Unicode arguments, build(), and the parse of the printed form"),
+    "big": dict(trace="Trace_Stateless", quick=1, thorough=1,
+                describe="structured inputs of 64 KiB, 256 KiB and 1 MiB (long components, many segments / qualifiers / separators / escapes)"),
+    "qual-ops": dict(trace="Trace_Qual", quick=4000, thorough=150000,
+                     describe="random sequences of 30 kinds of public calls on one live Qualifiers value, arbitrary keys and values"),
+    "checksum-ops": dict(trace="Trace_Checksum", quick=800, thorough=15000, procs=dict(quick=4, thorough=32),
+                         describe="random call sequences on live Checksum values in several processes (fresh RandomState each)"),
 }
 
 PARSE_ALL = ["PARSE-SEP", "PARSE-PATH", "PARSE-QUAL", "PARSE-TYPED", "PARSE-NS", "PARSE-SUB", "PARSE-QUALS2"]
 BUILD_ALL = ["BUILDER-G", "BUILDER-T", "BUILDER-SIM-G", "BUILDER-SIM-T"]
 PROPS = {
-    "C01": dict(suites=PARSE_ALL + ["FORMAT-1", "TYPES-NAMES"], drivers=[]),
-    "C02": dict(suites=PARSE_ALL, drivers=[]),
-    "C03": dict(suites=["FORMAT-1", "FORMAT-2", "PARSE-QUAL", "BUILDER-G"], drivers=[]),
-    "C04": dict(suites=PARSE_ALL + BUILD_ALL + ["SHAPES"], drivers=[]),
-    "C05": dict(suites=PARSE_ALL, drivers=[]),
-    "C06": dict(suites=PARSE_ALL + ["QUAL", "QUAL-SIM", "CHECKSUM", "BUILDER-G", "BUILDER-T", "BUILDER-SIM-G", "FORMAT-1", "TYPES-LOOKUP", "TYPES-COMB", "SHAPES"], drivers=[]),
-    "C07": dict(suites=["PARSE-NS", "PARSE-SUB", "PARSE-PATH", "PARSE-SEP"], drivers=[]),
-    "C08": dict(suites=["TYPES-NAMES", "PARSE-TYPED", "BUILDER-T", "TYPES-COMB"], drivers=[]),
-    "C09": dict(suites=BUILD_ALL + ["FORMAT-1", "FORMAT-2"], drivers=[]),
-    "C10": dict(suites=PARSE_ALL + ["BUILDER-G", "BUILDER-T", "FORMAT-1"], drivers=[]),
-    "C11": dict(suites=["QUAL", "QUAL-SIM"], drivers=[]),
-    "C12": dict(suites=["CHECKSUM", "BUILDER-G", "PARSE-QUAL"], drivers=[]),
+    "C01": dict(suites=PARSE_ALL + ["FORMAT-1", "TYPES-NAMES"], drivers=["garbage", "corpus"]),
+    "C02": dict(suites=PARSE_ALL, drivers=["corpus"]),
+    "C03": dict(suites=["FORMAT-1", "FORMAT-2", "PARSE-QUAL", "BUILDER-G"], drivers=["scalars", "builder-ops"]),
+    "C04": dict(suites=PARSE_ALL + BUILD_ALL + ["SHAPES"], drivers=["garbage", "builder-ops"]),
+    "C05": dict(suites=PARSE_ALL, drivers=["corpus", "garbage"]),
+    "C06": dict(suites=PARSE_ALL + ["QUAL", "QUAL-SIM", "CHECKSUM", "BUILDER-G", "BUILDER-T", "BUILDER-SIM-G", "FORMAT-1", "TYPES-LOOKUP", "TYPES-COMB", "SHAPES"], drivers=["garbage", "corpus", "qual-ops", "checksum-ops", "builder-ops", "big"]),
+    "C07": dict(suites=["PARSE-NS", "PARSE-SUB", "PARSE-PATH", "PARSE-SEP"], drivers=["garbage", "corpus"]),
+    "C08": dict(suites=["TYPES-NAMES", "PARSE-TYPED", "BUILDER-T", "TYPES-COMB"], drivers=["scalars"]),
+    "C09": dict(suites=BUILD_ALL + ["FORMAT-1", "FORMAT-2"], drivers=["builder-ops"]),
+    "C10": dict(suites=PARSE_ALL + ["BUILDER-G", "BUILDER-T", "FORMAT-1", "TYPES-NAMES", "CHECKSUM"], drivers=["scalars", "corpus"]),
+    "C11": dict(suites=["QUAL", "QUAL-SIM"], drivers=["qual-ops"]),
+    "C12": dict(suites=["CHECKSUM", "BUILDER-G", "PARSE-QUAL"], drivers=["checksum-ops", "corpus"]),
     "C13": dict(suites=["TYPES-STR", "PARSE-SEP", "PARSE-PATH", "BUILDER-G", "BUILDER-SIM-G", "FORMAT-1"], drivers=[]),
     "C14": dict(suites=["SHAPES"], drivers=[]),
     "C15": dict(suites=["TYPES-LOOKUP", "PARSE-TYPED"], drivers=[]),
